@@ -14,6 +14,7 @@ import (
 	hclog "github.com/hashicorp/go-hclog"
 	"github.com/hashicorp/go-plugin/internal/grpcmux"
 	"github.com/hashicorp/go-plugin/internal/plugin"
+	"github.com/hashicorp/go-plugin/verifhook"
 	"google.golang.org/grpc"
 	"google.golang.org/grpc/credentials"
 	"google.golang.org/grpc/health"
@@ -116,6 +117,7 @@ func (s *GRPCServer) Init() error {
 // Stop calls Stop on the underlying grpc.Server and Close on the underlying
 // grpc.Broker if present.
 func (s *GRPCServer) Stop() {
+	verifhook.Point("grpcserver.stop")
 	s.server.Stop()
 
 	if s.broker != nil {
